@@ -268,6 +268,21 @@ func c20Body(c *run.Ctx) {
 	var hooks sim.Hooks
 	hooks.AtDecision = func(s *sim.Sim, d *sim.Decision) {
 		decisions++
+		// table-level operations while the hand runs: the engine re-publishes the table with
+		// the unchanged hand state
+		if choose.Chance(c.Ch, "midhand.op", 12) {
+			switch c.Ch.Int("midhand.kind", 0, 2) {
+			case 0:
+				s.RandomMembershipOp(sim.MemOpts{NewPlayer: 3, NewRandom: 1, JoinSitter: 2, KeepSitting: 30, MaxNewID: 12})
+			case 1:
+				if d.Kind == "turn" {
+					s.API.PlayerExtendActionDeadline(d.Asked[0], c.Ch.Int("ext", 0, 30))
+				}
+			case 2:
+				s.RandomMembershipOp(sim.MemOpts{Addon: 2, Rebuy: 2, MaxNewID: 12, TopupAnyone: true})
+			}
+			labels["table_level_op_during_hand"] = true
+		}
 		if ctl != 0 && decisions == ctlAt {
 			if ctl == 1 {
 				s.API.PauseTable()
